@@ -71,6 +71,9 @@ type Case struct {
 	Def   json.RawMessage `json:"def"`
 	Coded json.RawMessage `json:"coded"`
 	Fired []string        `json:"fired"`
+	// when the as-coded answer is an error: the answer / firing quirks of the mechanism without the error quirks
+	Coded2 json.RawMessage `json:"coded2"`
+	Fired2 []string        `json:"fired2"`
 }
 
 // answers of the specification
@@ -144,18 +147,19 @@ type Result struct {
 	Cases          int                    `json:"cases"`
 	Databases      int                    `json:"databases"`
 	Pushes         map[string]int         `json:"pushes"`
-	Requests       map[string]int         `json:"requests"`        // endpoint/route -> count
+	Requests       map[string]int         `json:"requests"` // endpoint/route -> count
 	NonTrivial     int                    `json:"distinct_nontrivial"`
 	Agree          int                    `json:"answers_equal_definition"`
 	Classes        map[string]int         `json:"classes"`
-	FiredCases     map[string]int         `json:"fired_cases"`     // quirk -> exported cases in which TLC found it firing
-	FiredObserved  map[string]int         `json:"fired_observed"`  // quirk -> of those, the real code showed the as-coded answer
-	FiredSilent    map[string]int         `json:"fired_silent"`    // quirk -> of those, the real code answered the definition
+	FiredCases     map[string]int         `json:"fired_cases"`    // quirk -> exported cases in which TLC found it firing
+	FiredObserved  map[string]int         `json:"fired_observed"` // quirk -> of those, the real code showed the as-coded answer
+	FiredSilent    map[string]int         `json:"fired_silent"`   // quirk -> of those, the real code answered the definition
 	MismatchCounts map[string]int         `json:"mismatch_counts"`
 	Mismatches     []Mismatch             `json:"mismatches"`
 	Infra          []string               `json:"infra"`
 	Sample         interface{}            `json:"sample"`
 	BothRoutes     int                    `json:"requests_on_both_routes"`
+	Skipped        int                    `json:"cases_skipped_after_a_refused_push"`
 	Aux            map[string]interface{} `json:"aux"`
 }
 
